@@ -24,7 +24,8 @@ enum OpKind
     // the event programs (gen_event_program):
     O_EV_WAIT,   // igris::event q: wait(), or wait(1 h) when prio is set
     O_EV_SIGNAL, // igris::event q: signal()
-    O_QINIT      // not executed by a thread: the safe_queue starts with `val` items (initializer-list constructor)
+    O_QINIT,     // not executed by a thread: the safe_queue starts with `val` items (initializer-list constructor)
+    O_DWAIT      // parks on wait queue q through the delegate interface (waiter_delegate_init with an object of the caller's)
 };
 struct Op
 {
@@ -63,6 +64,8 @@ std::string op_str(const Op &o)
         return fmt("event%d.signal()", o.q);
     case O_QINIT:
         return fmt("[queue starts with %ld items]", o.val);
+    case O_DWAIT:
+        return fmt("delegate_wait(q%d)", o.q);
     default:
         return "-";
     }
@@ -183,8 +186,20 @@ Program gen_event_program(Src &s)
         for (int i = 0; i < n; i++)
         {
             Op o{O_YIELD};
-            switch (s.weighted({4, 4, 3, 2, 1, 1, 1}))
+            switch (s.weighted({4, 4, 3, 2, 1, 1, 1, 3, 3}))
             {
+            case 7:
+                if (depth == 0)
+                {
+                    o.k = O_DWAIT;
+                    o.q = (int)s.below(kQueues);
+                }
+                break;
+            case 8:
+                o.k = s.coin() ? O_UNWAIT_ONE : O_UNWAIT_ALL;
+                o.q = (int)s.below(kQueues);
+                o.val = (long)s.range(1, 9);
+                break;
             case 0:
                 if (depth == 0)
                 {
